@@ -84,3 +84,17 @@ Lemma g_seq_total (o : op arg) path (s : sstate val) :
 Proof. apply (seq_run_total val arg wfun sk K WF). Qed.
 
 End General2.
+
+Section General3.
+Variables (val arg : Type) (wfun : op arg -> nat -> list val -> val) (sk : skel) (wp : bool) (K : lock).
+Hypothesis WF : wf_skel K sk = true.
+
+Lemma g_real_time (c0 c : cfg val arg) la t1 o1 log1 lb t2 o2 ld log2 le :
+  initial c0 ->
+  exec wfun sk wp c0 (la ++ LEnd t1 o1 log1 :: lb ++ LBegin t2 o2 :: ld ++ LEnd t2 o2 log2 :: le) c ->
+  Forall (other_thread t2) ld ->
+  exists H Ha Hm Hb s,
+    seq_hist wfun sk (abs_of c0) H s /\ H = Ha ++ (t1, o1, log1) :: Hm ++ (t2, o2, log2) :: Hb.
+Proof. apply (real_time_order val arg wfun sk wp K WF). Qed.
+
+End General3.
